@@ -73,6 +73,8 @@ def pattern_cases(R, tier):
     n = 400 if tier == 'quick' else 12000
     for i in range(n):
         d = rng.choice((2, 3, 3, 4, 4, 5, 6) if tier == 'quick' else (3, 4, 4, 5, 5, 6, 7))
+        if i % 25 == 0:
+            d = rng.choice((7, 7, 8))          # the lazily filled sign table
         if rng.random() < 0.2 and d <= 5:
             spec = {'sig': [rng.choice((1, -1, 0)) for _ in range(d)], 'basis': algs.random_basis(rng, d)}
         elif rng.random() < 0.1:
@@ -80,6 +82,16 @@ def pattern_cases(R, tier):
         else:
             spec = {'sig': [rng.choice((1, -1, 0)) for _ in range(d)], 'start': rng.choice((None, 0, 1))}
         yield spec, None, None, 'random'
+    # one algebra object with a wrapper (JIT-style decorator returning a new callable), the same blade
+    # sets met in several storage orders: each product must still be the bilinear extension
+    for j in range(3 if tier == 'quick' else 40):
+        d = rng.choice((2, 3))
+        spec = {'sig': [rng.choice((1, -1, 0)) for _ in range(d)], 'wrapper': True}
+        base = [rng.sample(range(2 ** d), rng.randint(2, 3)) for _ in range(2)]
+        for _ in range(10):
+            ka, kb = list(rng.choice(base)), list(rng.choice(base))
+            rng.shuffle(ka); rng.shuffle(kb)
+            yield spec, tuple(ka), tuple(kb), 'wrapper-history'
 
 
 def run(R, tier):
@@ -91,11 +103,18 @@ def run(R, tier):
     for spec, ka, kb, tag in pattern_cases(R, tier):
         key = repr(spec)
         if key not in cache:
-            cache[key] = algs.make_impl(spec)
+            if spec.get('wrapper'):
+                def wrap(f):
+                    def g(*a): return f(*a)
+                    return g
+                cache[key] = algs.make_impl({k: v for k, v in spec.items() if k != 'wrapper'}, wrapper=wrap)
+            else:
+                cache[key] = algs.make_impl(spec)
         alg = cache[key]
         if ka is None:
-            ka, sa = oc.random_keys(rng, alg)
-            kb, sb = oc.random_keys(rng, alg)
+            big = alg.d >= 7               # keep the lazily-tabled algebras to sparse patterns (cost)
+            ka, sa = oc.random_keys(rng, alg, rng.choice(['sparse', 'single', 'sparse', 'empty']) if big else None)
+            kb, sb = oc.random_keys(rng, alg, rng.choice(['sparse', 'single', 'sparse']) if big else None)
             R.count(f'style={sa}'); R.count(f'style={sb}')
         x = list(zip(ka, oc.random_values(rng, len(ka))))
         y = list(zip(kb, oc.random_values(rng, len(kb))))
